@@ -274,7 +274,7 @@ func scaleJobs(property string, thorough bool) []*Job {
 			p.Kinds = []string{"unjustified-overflow", "untruthful-expiration", "overflow-without-bound", "zero-weight-evicted", "unexpected-removal", "missing-entry"}
 			use = w.cfg.Executor == ""
 		case "C12":
-			p.Kinds = []string{"deadline-mismatch", "deadline-wrapped", "refresh-deadline-mismatch", "invisible-before-deadline", "visible-at-deadline", "missing-entry", "hook-mismatch", "untruthful-expiration"}
+			p.Kinds = []string{"deadline-mismatch", "deadline-wrapped", "refresh-deadline-mismatch", "invisible-before-deadline", "visible-at-deadline", "missing-entry", "hook-mismatch", "untruthful-expiration", "entry-mismatch"}
 			use = w.cfg.Expiry != ""
 		case "C13":
 			p.Kinds = []string{"timer-not-swept", "untruthful-expiration", "missing-entry", "expiration-misreported"}
